@@ -32,10 +32,10 @@ var vC05ParseFloatTable = map[string]float64{
 
 var vC05ParseFloatErr = map[string]bool{"x": true, "1 1": true, "+-1": true, "0o17": true, "0b11": true, "0b+1": true}
 
-func vC05StubParseFloat(s string, bitSize int) (float64, error) {
+// vC05ScanSmallInt: s is sign? digit{1,3}; its value (branch-free on the symbolic bytes)
+func vC05ScanSmallInt(s string) (v int, neg bool, isNum bool) {
 	n := len(s)
 	start := 0
-	neg := false
 	if n > 0 {
 		c := s[0]
 		if c == '-' {
@@ -45,8 +45,7 @@ func vC05StubParseFloat(s string, bitSize int) (float64, error) {
 			start = 1
 		}
 	}
-	isNum := n-start >= 1 && n-start <= 3
-	v := 0
+	isNum = n-start >= 1 && n-start <= 3
 	for i := start; i < n; i++ {
 		c := s[i]
 		if c < '0' || c > '9' {
@@ -54,6 +53,11 @@ func vC05StubParseFloat(s string, bitSize int) (float64, error) {
 		}
 		v = v*10 + int(c-'0')
 	}
+	return
+}
+
+func vC05StubParseFloat(s string, bitSize int) (float64, error) {
+	v, neg, isNum := vC05ScanSmallInt(s)
 	if isNum {
 		f := float64(v)
 		if neg {
@@ -68,6 +72,41 @@ func vC05StubParseFloat(s string, bitSize int) (float64, error) {
 		return 0, strconv.ErrSyntax
 	}
 	panic("vC05StubParseFloat: input outside the modelled contract: " + s)
+}
+
+// strconv.ParseInt(s, 10, 64) by contract on sign? digit{1,3} (H05.4.strnum.digits only; the concrete
+// enumeration H05.4.strnum.fixed executes the real ParseInt in all four bases)
+func vC05StubParseInt(s string, base int, bitSize int) (int64, error) {
+	v, neg, isNum := vC05ScanSmallInt(s)
+	if base != 10 || bitSize != 64 || !isNum {
+		panic("vC05StubParseInt: input outside the modelled contract: " + s)
+	}
+	if neg {
+		v = -v
+	}
+	return int64(v), nil
+}
+
+// strings.TrimSpace on ASCII input by contract (H05.4.strnum.digits only, see notes/C05_strnum_engine.md;
+// H05.4.strnum.fixed executes the real one, including its Unicode slow path)
+func vC05StubTrimSpaceASCII(s string) string {
+	lo, hi := 0, len(s)
+	for i := 0; i < len(s); i++ {
+		if s[i] >= 0x80 {
+			panic("vC05StubTrimSpaceASCII: non-ASCII input")
+		}
+	}
+	for lo < hi && vC05IsASCIISpace(s[lo]) {
+		lo++
+	}
+	for hi > lo && vC05IsASCIISpace(s[hi-1]) {
+		hi--
+	}
+	return s[lo:hi]
+}
+
+func vC05IsASCIISpace(c byte) bool {
+	return c == ' ' || (c >= '\t' && c <= '\r')
 }
 
 // ---------------------------------------------------------------------
@@ -187,7 +226,7 @@ func vC05Check(t *vC05Text, wantBits uint64, wantTrim string, knownNum bool, kno
 		s := t.values()[k] // fresh value: ToFloat may be the first use of an imported string
 		f := math.Float64bits(s.ToFloat())
 		if t.ascii {
-			vAssert("ToFloat==ToNumber.ToFloat:ascii-backed", vC05SameBits(f, num[k]))
+			vAssertK("ToFloat==ToNumber.ToFloat:ascii-backed", vC05SameBits(f, num[k]), knownNum, knownID)
 		} else {
 			vAssertK("ToFloat==ToNumber.ToFloat:utf16-backed", vC05SameBits(f, num[k]), true, "F-C05-unicode-string-ToFloat-ToInteger-constant")
 		}
@@ -242,7 +281,9 @@ func H_C05_strnumDigits() {
 	if neg {
 		want = -want
 	}
-	vC05Check(t, math.Float64bits(want), string(t.utf8[bodyStart:bodyEnd]), false, "")
+	// known: "-00", "-000": stringToInt only intercepts the exact spelling "-0"
+	negZero := neg && v == 0 && nd >= 2
+	vC05Check(t, math.Float64bits(want), string(t.utf8[bodyStart:bodyEnd]), negZero, "F-C05-negative-zero-multi-digit")
 }
 
 type vC05Fixed struct {
@@ -257,6 +298,7 @@ var vC05FixedSpellings = []vC05Fixed{
 	{"", 0, ""},
 	{"-0", 1 << 63, ""},
 	{"+0", 0, ""},
+	{"-00", 1 << 63, "F-C05-negative-zero-multi-digit"},
 	{"Infinity", 0x7FF0000000000000, ""},
 	{"+Infinity", 0x7FF0000000000000, ""},
 	{"-Infinity", 0xFFF0000000000000, ""},
